@@ -3,7 +3,7 @@ from harness import objtable
 LEVEL = 'model_checking'
 MANIFEST = {'category': 'model_checking', 'engine': 'symx+z3',
  'technique': 'bounded symbolic execution of the real object-table code (symx proxies + z3): one inductive step from an arbitrary valid state vs a reference model',
- 'text': "For every path of one ConnectionImpl.message step from an arbitrary valid table (ids fully symbolic in [2,2^32), bounded incarnation/argument counts) z3 proves that every mention resolves to the model's incarnation and the table changes exactly as the model says; induction over the checked invariant extends this to histories of any length. Witnesses are replayed on the real code before being reported.",
+ 'text': "For every path of one ConnectionImpl.message step from an arbitrary valid table (ids fully symbolic in [2,2^32), bounded incarnation/argument counts) z3 proves that every mention resolves to the model's incarnation and the table changes exactly as the model says; induction over the checked invariant extends this to histories of any length. Witnesses are replayed on the real code before being reported. Plus every well-formed history of <= 6 (quick) / 8 (thorough) log lines over ids 2, 3 and a server-range id (create as registry or callback, mention, delete_id, re-use; tagged and untagged) through the real decoder, line loop, manager and display against a reference table: labels, incarnation letters, destruction annotations, lifespans, alive flags, and the connection stays one connection.",
  'note': 'Trusted: z3, lib/symx.py, the association-list replacement of the id dict, the reference model in harness/objtable.py. Bounds: table ids / incarnations / arguments as stated in the evidence. Ill-formed histories are outside the claim.'}
 EXPLANATION = ('Bounded symbolic model checking of the real object-table code: one inductive step from an arbitrary valid table with fully '
                'symbolic ids, compared against a reference table model; all paths explored, each check proved by z3 for all values on the path.')
